@@ -81,9 +81,12 @@ fn reference(codec: &str, level: Option<u8>, input: &[u8]) -> Option<Vec<u8>> {
 	}
 }
 
-fn decode(codec: &str, block: &[u8]) -> Option<Vec<u8>> {
+pub(crate) fn decode(codec: &str, block: &[u8]) -> Option<Vec<u8>> {
 	let mut out = Vec::new();
 	match codec {
+		"null" => {
+			out = block.to_vec();
+		}
 		"deflate" => {
 			flate2::read::DeflateDecoder::new(block).read_to_end(&mut out).ok()?;
 		}
